@@ -64,7 +64,7 @@ def checkDomain (e : Env) (fs : Files) : Except String Unit := do
   unless pathClean e.home do throw "out of domain: home is not a clean path"
   let xh := e.getD "XDG_CONFIG_HOME" ""
   unless isBlank xh || pathClean xh do throw "out of domain: XDG_CONFIG_HOME is not a clean path"
-  for d in (e.getD "XDG_CONFIG_DIRS" "").splitOn ":" do
+  for d in splitChar ':' (e.getD "XDG_CONFIG_DIRS" "") do
     unless isBlank d || pathClean d do throw s!"out of domain: XDG_CONFIG_DIRS entry {d} is not a clean path"
   match e.globalPath? with
   | some g => unless pathClean g do throw "out of domain: PYPYR_CONFIG_GLOBAL is not a clean path"
